@@ -410,7 +410,50 @@ func runCodec(o opts) error {
 			Desc: map[string]interface{}{"bytes": fmt.Sprintf("%x", b)}})
 	}
 
+	// vm.NewLine with the integer argument in every form the decoder accepts: minimal big-endian, the
+	// zero-length form of 0 (an empty, non-nil slice), padded to four bytes
+	addNewLineForms := func(ins Instr) {
+		optB := func(b []byte) string {
+			if b == nil {
+				return "None"
+			}
+			return "(Some " + hx.B(b) + ")"
+		}
+		var strs []string
+		var mode []byte
+		switch ins.Op {
+		case vm.CATCH:
+			strs, mode = []string{string(ins.S1)}, modeByte(ins.M)
+		case vm.CROAK:
+			mode = modeByte(ins.M)
+		case vm.LOAD:
+			strs = []string{string(ins.S1)}
+		default:
+			return
+		}
+		forms := [][]byte{minBe(ins.N), {byte(ins.N >> 24), byte(ins.N >> 16), byte(ins.N >> 8), byte(ins.N)}}
+		if ins.N == 0 {
+			forms = append(forms, []byte{})
+		}
+		for _, ba := range forms {
+			var got []byte
+			pk, _ := hx.Recover(func() { got = vm.NewLine(nil, uint16(ins.Op), strs, ba, mode) })
+			if pk {
+				got = []byte("PANIC")
+			}
+			ss := make([]string, len(strs))
+			for i, x := range strs {
+				ss[i] = hx.S(x)
+			}
+			w.Add(hx.Case{Kind: "newline-forms", Key: fmt.Sprintf("nlf-%d-%x-%x-%x", ins.Op, strs, ba, mode),
+				Term: fmt.Sprintf("CNewLine %d %s %s %s %s", ins.Op, hx.List(ss), optB(ba), optB(mode), hx.B(got)),
+				Desc: map[string]interface{}{"instr": ins.Term(), "byteargs": fmt.Sprintf("%x", ba)}})
+		}
+	}
 	if o.prop == "C14" {
+		for _, z := range []Instr{{Op: vm.LOAD, S1: []byte("foo")}, {Op: vm.CATCH, S1: []byte("foo"), M: true}, {Op: vm.CROAK}, {Op: vm.CROAK, M: true}, {Op: vm.LOAD, S1: []byte("x"), N: 37}} {
+			addNewLineForms(z)
+		}
 		// primitives: integer encoder over boundaries, symbol encoder over lengths
 		for _, n := range numBoundaries {
 			var b []byte
@@ -443,6 +486,9 @@ func runCodec(o opts) error {
 				p = append(p, ins)
 				one := encNewLine(nil, ins)
 				enc = append(enc, one...)
+				if c%3 == 1 {
+					addNewLineForms(ins)
+				}
 				if c%3 == 0 {
 					var ab []byte
 					var aerr error
